@@ -317,6 +317,21 @@ func runC15(c *Ctx) {
 		}
 		ts := uint32(cur.Unix() + off)
 		want := off < 0
+		// the same expiry instant split into published + offset in several ways, up to the largest offset
+		for _, e16 := range []uint16{600, 32767, 32768, 50000, 65535} {
+			if int64(ts)-int64(e16) < 1 {
+				continue
+			}
+			lsx, _, ex := lease_set2.ReadLeaseSet2(c15LS2(ts-uint32(e16), e16))
+			mx, _, ex2 := meta_leaseset.ReadMetaLeaseSet(c15Meta(ts-uint32(e16), e16, ts))
+			elx, _, ex3 := encrypted_leaseset.ReadEncryptedLeaseSet(c15Enc(ts-uint32(e16), e16))
+			okx := ex == nil && ex2 == nil && ex3 == nil && lsx.IsExpired() == want && mx.IsExpired() == want && elx.IsExpired() == want
+			if !want && time.Now().Unix() >= int64(ts) {
+				continue
+			}
+			c.Check("expired_iff_past", okx, "IsExpired", [][]byte{i64(off), u16(int(e16))}, "",
+				fmt.Sprintf("expiry %d s from now as published + %d: expected expired=%v", off, e16, want))
+		}
 		ls, _, err := lease_set2.ReadLeaseSet2(c15LS2(ts-10, 10))
 		m, _, err2 := meta_leaseset.ReadMetaLeaseSet(c15Meta(ts-10, 10, ts))
 		el, _, err3 := encrypted_leaseset.ReadEncryptedLeaseSet(c15Enc(ts-10, 10))
